@@ -80,6 +80,8 @@ KINDS = {
     "union_none": ("Union[int, str, None]", "None", False, [None, 3, "s"], lambda v: v),
     "date_dflt": ("datetime.date", "datetime.date(2001, 2, 3)", False, [D(2001, 2, 3), D(2010, 1, 1)], iso),
     "omit": ("int", "7", False, [7, 9], lambda v: v),
+    # a field typed Self: the nested node is the same class, so every keyword flag and the call dialect reach it
+    "self_opt": ("Optional[Self]", "None", False, [None, "SELF", "SELF"], None),
     "nested": ("N", "N()", True, ["N()", "N(o=4, al=5)", "N(o=None, al=3, d=datetime.date(2011, 1, 1))"], None),
     "opt_nested": ("Optional[N]", "None", False, [None, "N(o=1)"], None),
     "tuple_uuid": ("Tuple[uuid.UUID, ...]", "(uuid.UUID(int=1),)", False, [(uuid.UUID(int=1),), ()], lambda v: [str(x) for x in v]),
@@ -306,6 +308,7 @@ def run_case(seed, tier, rec, st):
                 vals = KINDS[f["kind"]][3]
                 row[f["name"]] = vals[0] if r == 0 else rng.choice(vals)
             value_rows.append(row)
+        by_kind = {f["name"]: f["kind"] for f in schema["fields"]}
         defaults = {}
         for f in schema["fields"]:
             dsrc = KINDS[f["kind"]][1]
@@ -338,6 +341,12 @@ def run_case(seed, tier, rec, st):
                 try:
                     kwargs = {n: (eval(v, mod.__dict__) if isinstance(v, str) and (v.startswith("N(") or v.startswith("Color.")) else v)
                               for n, v in row.items()}
+                    selfs = [n for n, v in kwargs.items() if isinstance(v, str) and v == "SELF" and by_kind.get(n) == "self_opt"]
+                    for n in selfs:
+                        kwargs[n] = None
+                    child_kwargs = dict(kwargs)
+                    for n in selfs:
+                        kwargs[n] = M(**child_kwargs)
                     x = M(**kwargs)
                 except Exception as e:
                     rec.count("instance_build_failed")
@@ -350,14 +359,14 @@ def run_case(seed, tier, rec, st):
                         okw["omit_none"] = kw["omit_none"]
                     if "by_alias" in kw:
                         okw["serialize_by_alias"] = kw["by_alias"]
-                    def expectation(quirk_f25=False):
+                    def expectation(quirk_f25=False, x=x, okw=okw):
                         # F25 mechanism: with a keyword flag enabled and the keyword not passed, the outer
                         # method forwards its own compiled default, which shadows the call dialect's option
                         ch_on = ch_ba = [call_d, dvec, cfg]
                         if quirk_f25 and call_d is not None:
-                            if "TO_DICT_ADD_OMIT_NONE_FLAG" in flags and "omit_none" not in kw:
+                            if "TO_DICT_ADD_OMIT_NONE_FLAG" in flags and "omit_none" not in okw:
                                 ch_on = [None, dvec, cfg]
-                            if "TO_DICT_ADD_BY_ALIAS_FLAG" in flags and "by_alias" not in kw:
+                            if "TO_DICT_ADD_BY_ALIAS_FLAG" in flags and "serialize_by_alias" not in okw:
                                 ch_ba = [None, dvec, cfg]
                         e_on = eff("omit_none", okw, ch_on)
                         e_od = eff("omit_default", {}, [call_d, dvec, cfg])
@@ -384,6 +393,15 @@ def run_case(seed, tier, rec, st):
                                 val = None
                             elif f["kind"] in ("nested", "opt_nested"):
                                 val = dict(project_nested(raw, nc, nkw, n_call, quirk_f25))
+                            elif f["kind"] == "self_opt":
+                                # the same class one level down: flagged keywords are passed on explicitly, the call
+                                # dialect travels with ADD_DIALECT_SUPPORT (call_d is None without it)
+                                skw = {}
+                                if "TO_DICT_ADD_OMIT_NONE_FLAG" in flags:
+                                    skw["omit_none"] = e_on
+                                if "TO_DICT_ADD_BY_ALIAS_FLAG" in flags:
+                                    skw["serialize_by_alias"] = e_ba
+                                val = dict(expectation(quirk_f25, x=raw, okw=skw)[0])
                             elif f["kind"] == "enum":
                                 val = raw.value
                             else:
